@@ -877,7 +877,11 @@ func (st *tunnelClientStream) finishStream(err error, trailers metadata.MD) bool
 	verifYield("cfin.cas", st.streamID)
 	defer st.cancel()
 	st.ch.removeStream(st.streamID)
-	st.receiver.close()
+	// Close the receiver only after the trailers have been published below
+	// (deferred calls run last-in-first-out: unlock metaMu, then this), so
+	// that a reader that observes the end of the stream also observes the
+	// trailers, both via Trailer() and via grpc.Trailer call option targets.
+	defer st.receiver.close()
 	verifYield("cfin.rclosed", st.streamID)
 
 	st.metaMu.Lock()
